@@ -73,7 +73,7 @@ func (c *polCtx) draw(depth int, top bool) types.SpendPolicy {
 			case 1:
 				uc.PublicKeys = append(uc.PublicKeys, c.alien[t.Choose(len(c.alien))].PublicKey().UnlockKey())
 			case 2:
-				uc.PublicKeys = append(uc.PublicKeys, types.UnlockKey{Algorithm: types.NewSpecifier("odd"), Key: []byte{1, 2, 3}})
+				uc.PublicKeys = append(uc.PublicKeys, types.UnlockKey{Algorithm: types.NewSpecifier(pick(t, "odd", "a:b c", "x,y", "p(q)", "[z]", "q\"r")), Key: []byte{1, 2, 3}})
 			default:
 				uc.PublicKeys = append(uc.PublicKeys, types.UnlockKey{Algorithm: types.SpecifierEntropy, Key: make([]byte, 32)})
 			}
